@@ -60,3 +60,18 @@ Definition tool_rows : list (string * string) :=
 
 Definition tool_sig (name : string) : list fty * fty :=
   match sop_of name with Some o => sop_sig o | None => ([], FOther) end.
+
+(* what the model says the Java route makes of the Integer constant v: "zero" | "one" | "valueOf <literal>" | "string <digits>",
+   and the value it denotes ("javac-error" when the literal is not a Java int) *)
+Definition tool_bint (small : bool) (s : string) : string * string :=
+  match z_of_string s with
+  | None => ("badarg", "")
+  | Some v =>
+      let b := emit_bint java_bint_params small v in
+      (match b with
+       | BZero => "zero" | BOne => "one"
+       | BValueOf z => "valueOf " ++ string_of_z z
+       | BNewString z => "string " ++ string_of_z z
+       end,
+       match denote_blit b with Some z => string_of_z z | None => "javac-error" end)
+  end.
